@@ -470,17 +470,98 @@ def o_twin(inp):
         r = _twin(inp, 'float64')       # a defect already present with float64 operands keeps its float64 tag
         if r is not None:
             return r
-    return _twin(inp, form)
+        return _twin(inp, form)
+    pre = {}
+    r = _shared(inp, pre)               # call sequences on ONE caller-owned array (row views), both orders, each side twice
+    if r is not None:
+        return r
+    return _twin(inp, form, pre)
 
 
-def _twin(inp, form):
+def _same_outcome(x, y):
+    """bit-for-bit equality of two call outcomes of the SAME entry point on the same numbers"""
+    if x[0] != y[0]:
+        return False
+    if x[0] == 'raise':
+        return x[1] == y[1]
+    a, b = x[1], y[1]
+    if a is None or b is None:
+        return a is None and b is None
+    a, b = np.asarray(a), np.asarray(b)
+    if a.shape != b.shape or a.dtype != b.dtype:
+        return False
+    if a.dtype == object:
+        return all((u is None and v is None) or (u is not None and v is not None and np.array_equal(u, v, equal_nan=True))
+                   for u, v in zip(a.reshape(-1), b.reshape(-1)))
+    return bool(np.array_equal(a, b, equal_nan=True))
+
+
+def _shared(inp, pre):
+    """The caller builds its float64 arrays ONCE.  Order A: the scalar entry point on the row views A[i] (twice each), then the
+    array entry point on the same A.  Order B: the array entry point on A (twice), then the scalar entry point on the views.
+    Every result must equal, bit for bit, what the same entry point returns on fresh private copies: an entry point that
+    scribbles on its operand (in one copy of a twin only, typically) breaks the row-by-row equality for the caller."""
+    from vlib.core import call_outcome
+    p = BYNAME[inp['pair']]
+    rows = inp['rows']
+    A = _ahrs()
+    ctxm = (lambda: _fixed_rng()) if p.rng else (lambda: contextlib.nullcontext())
+
+    def stacked():
+        per = [_groups_of(p, r) for r in rows]
+        return [np.array([pr[k] for pr in per], dtype=float) for k in range(len(p.groups))]
+
+    def single(G, i):
+        with ctxm():
+            return p.s(A, *[g[i] for g in G])           # g[i] is a VIEW of the caller's array
+
+    def batch(G):
+        with ctxm():
+            return p.b(A, *G)
+
+    fresh_s = [call_outcome(impl_single, p, r) for r in rows]
+    fresh_b = call_outcome(impl_batch, p, rows)
+    pre['s'], pre['b'] = fresh_s, fresh_b
+    reg = region_of(p, rows[0])
+    # order A
+    G = stacked()
+    for i in range(len(rows)):
+        for k in (1, 2):
+            o = call_outcome(single, G, i)
+            if not _same_outcome(o, fresh_s[i]):
+                return {'tag': f"{p.name}/{reg}-scalar-call-{k}-on-row-view-differs", 'observed': _obs(o), 'expected': _obs(fresh_s[i]),
+                        'note': f'row {i}: scalar entry point on the view A[{i}] of the caller array, call {k}'}
+    o = call_outcome(batch, G)
+    if not _same_outcome(o, fresh_b):
+        return {'tag': f"{p.name}/{reg}-batch-after-scalar-calls-differs", 'observed': _obs(o), 'expected': _obs(fresh_b),
+                'note': 'array entry point on the same caller array after the scalar calls on its rows'}
+    # order B
+    G = stacked()
+    for k in (1, 2):
+        o = call_outcome(batch, G)
+        if not _same_outcome(o, fresh_b):
+            return {'tag': f"{p.name}/{reg}-batch-call-{k}-differs", 'observed': _obs(o), 'expected': _obs(fresh_b),
+                    'note': f'array entry point, call {k} on the same caller array'}
+    for i in range(len(rows)):
+        o = call_outcome(single, G, i)
+        if not _same_outcome(o, fresh_s[i]):
+            return {'tag': f"{p.name}/{reg}-scalar-after-batch-differs", 'observed': _obs(o), 'expected': _obs(fresh_s[i]),
+                    'note': f'row {i}: scalar entry point on A[{i}] after the array entry point ran on A'}
+    return None
+
+
+def _obs(o):
+    return _flat(o[1]) if o[0] == 'val' else f'raises {o[1]}'
+
+
+def _twin(inp, form, pre=None):
     from vlib.core import call_outcome
     p = BYNAME[inp['pair']]
     rows = inp['rows']
     sfx = '' if form == 'float64' else '@' + form
-    bo = call_outcome(impl_batch, p, rows, form)
+    bo = pre['b'] if pre else call_outcome(impl_batch, p, rows, form)
     for i, r in enumerate(rows):
-        so = call_outcome(impl_single, p, r, form)
+        so = pre['s'][i] if pre else call_outcome(impl_single, p, r, form)
         reg = region_of(p, r) + sfx
         if bo[0] == 'raise' or so[0] == 'raise':
             if bo[0] == so[0]:
